@@ -646,4 +646,4 @@ def bytes_to_str(b):
 
 
 def unquote_to_wsgi_str(string):
-    return urllib.parse.unquote_to_bytes(string).decode('latin-1')
+    return urllib.parse.unquote_to_bytes(string.encode('latin-1')).decode('latin-1')
